@@ -33,6 +33,8 @@ PROPS = {
                         "stream writers patch only bytes that have not been flushed yet (a theorem hypothesis; checked on every real dump by the call-log replay)"],
         "explanation": "C09 theorems: mirror invariant kept by every operation under every destination script; failure post-condition; "
                        "success corollary (destination from start == image, nothing before/beyond modified).",
+        "extra_modules": ["MdwModel.Theorems.FlushOrder"],
+        "extra_theorems": ["FlushOrder_source_agrees", "FlushOrder_failed_flush", "FlushOrder_then_entry"]
     },
     "C10": {
         "rule": "same generator as C09 (failures only, no short writes) with a snapshot of the destination after every trait-level call; "
@@ -45,8 +47,8 @@ PROPS = {
         "assumptions": ["granularity = Write/Seek trait calls", "an entry and everything it references lie inside the image built when it is published (C01)"],
         "explanation": "C10_flush: every destination state after a completed call of write_to_file is a consistent snapshot of the old or the new "
                        "image; counterexample theorem for the pre-repair order. At the level of the whole-image model (Theorems/Truncated.lean): truncatedImage d k = header, directory with the first k published entries, bytes appended so far — what has reached the destination after the k-th writer's flush; Image_truncated: for every k every published entry lies inside it (in order, extents disjoint), its bytes and entries are those of the complete image, and the last one is the complete image; Image_truncated_entry: a visible entry is the complete image's entry in that slot and its stream lies inside the truncated image.",
-        "extra_modules": ["MdwModel.Theorems.Truncated", "MdwModel.Theorems.DirSlots"],
-        "extra_theorems": ["Image_truncated", "Image_truncated_entry", "stage_ok", "foldl_stages", "DirSlots_source_agrees", "DirSlots_entry", "DirSlots_flush"],
+        "extra_modules": ["MdwModel.Theorems.Truncated", "MdwModel.Theorems.DirSlots", "MdwModel.Theorems.FlushOrder"],
+        "extra_theorems": ["Image_truncated", "Image_truncated_entry", "stage_ok", "foldl_stages", "DirSlots_source_agrees", "DirSlots_entry", "DirSlots_flush", "FlushOrder_source_agrees", "FlushOrder_failed_flush", "FlushOrder_then_entry"]
     },
     "C13": {
         "rule": "generated /proc/<pid>/maps texts (paths, pseudo names, none, ' (deleted)', spaces, [stack:N], /SYSVxxxxxxxx, all permission "
